@@ -330,9 +330,11 @@ func (o *OperandPegImpl) CalcOffsetByteSize() int {
 			return 1 // disp8
 		}
 
-		// 8ビットに収まらない場合、ビットモードに応じて disp16 または disp32
-		if o.bitMode == cpu.MODE_16BIT {
-			// 16ビットモードでは、16ビットディスプレースメントを使用
+		// 8ビットに収まらない場合、アドレスサイズに応じて disp16 または disp32
+		// (16ビットモードでも EAX などの32ビットレジスタを使えば 67h 付きの32ビットアドレッシングで disp32)
+		addr32 := strings.HasPrefix(memInfo.BaseReg, "E") || strings.HasPrefix(memInfo.IndexReg, "E")
+		if o.bitMode == cpu.MODE_16BIT && !addr32 {
+			// 16ビットアドレッシングでは、16ビットディスプレースメントを使用
 			return 2 // disp16
 		}
 		// 32ビットモードでは、32ビットディスプレースメントを使用
@@ -529,8 +531,9 @@ func (o *OperandPegImpl) IsType(index int, targetType OperandType) bool {
 // CalcSibByteSize は、SIB バイトが必要な場合に 1 を、不要な場合に 0 を返します。
 func (o *OperandPegImpl) CalcSibByteSize() int {
 	memInfo, found := o.GetMemoryInfo()
-	// 32ビットモードでメモリオペランドがある場合のみ SIB の可能性を考慮
-	if found && memInfo != nil && o.GetBitMode() == cpu.MODE_32BIT {
+	// 32ビットアドレッシング (32ビットモード、または16ビットモードで32ビットレジスタを使用) の場合のみ SIB の可能性を考慮
+	if found && memInfo != nil && (o.GetBitMode() == cpu.MODE_32BIT ||
+		strings.HasPrefix(memInfo.BaseReg, "E") || strings.HasPrefix(memInfo.IndexReg, "E")) {
 		// ModR/M rm=100 になる条件をチェック (calculateModRM のロジックを参考)
 		isDirectAddr := memInfo.BaseReg == "" && memInfo.IndexReg == ""
 		isEBPBasedNoIndex := memInfo.BaseReg == "EBP" && memInfo.IndexReg == ""
